@@ -177,7 +177,7 @@ def _dijkstra_core(rep, f, m, fn_node, G, tag, with_hops):
     ex = [norm(s.test) for s in b if isinstance(s, ast.If) and any(isinstance(x, ast.Break) for x in s.body)]
     md = [norm(s) for s in b if isinstance(s, ast.Assign) and norm(s.targets[0]) == 'minD']
     nv = [norm(s) for s in b if where_unpack(s) is not None and norm(where_unpack(s)[0]) == 'V']
-    okx = ex == ['D[%s, S].size == 0' % u, 'np.isinf(minD)'] and md == ['minD = np.min(D[%s, S])' % u] and nv == [cn('V, = np.where(D[%s, :] == minD)' % u)]
+    okx = ex in (['D[%s, S].size == 0' % u, 'np.isinf(minD)'], ['not np.any(S)', 'np.isinf(minD)'], ['len(D[%s, S]) == 0' % u, 'np.isinf(minD)']) and md == ['minD = np.min(D[%s, S])' % u] and nv == [cn('V, = np.where(D[%s, :] == minD)' % u)]
     rep.ob('K.dijkstra-next-frontier-is-all-minimal-temporary-nodes', f, '; '.join(ex + md + nv), okx,
            'the search ends when no temporary node is left or the nearest one is unreachable; otherwise all nodes at the minimal temporary length are settled together' + tag, line=w.lineno)
     return lp
